@@ -168,13 +168,22 @@ Proof.
     rewrite (mapM_ok_map (fun blk => [EBox (aty x) (skipn (S dm) (ash x)) blk])). cbn [bind].
     rewrite concat_map_singleton, app_nil_r. reflexivity.
 Qed.
-(** the current slicing agrees with the repaired one unless the rows are empty below depth 1 *)
-Lemma k_box_eq_fixed d x : wf x -> (prodn (skipn (dmin d x) (ash x)) <> 0 \/ dmin d x <= 1) -> k_box d x = k_box_fixed d x.
+(** the slicing before commit 3374592 agrees unless the rows are empty below depth 1 *)
+Lemma k_box_pre_eq_fixed d x : wf x -> (prodn (skipn (dmin d x) (ash x)) <> 0 \/ dmin d x <= 1) -> k_box true d x = k_box_fixed d x.
 Proof.
   intros W H. unfold k_box, k_box_fixed. destruct (dmin d x) as [|dm] eqn:Ed; auto.
   unfold blocks. f_equal. f_equal. f_equal.
   destruct (Nat.eqb (prodn (skipn (S dm) (ash x))) 0) eqn:Z.
   - apply Nat.eqb_eq in Z. destruct H as [H|H]; [congruence|].
     assert (dm = 0) by lia. subst dm. destruct (ash x) as [|n s]; cbn [firstn skipn nrows]; unfold prodn; cbn [fold_right]; lia.
+  - apply Nat.eqb_neq in Z. rewrite (wf_blocks_len (S dm) x W). apply Nat.div_mul; auto.
+Qed.
+(** the current slicing (one empty slice per cell) is the blockwise one, unconditionally *)
+Lemma k_box_eq_fixed d x : wf x -> k_box false d x = k_box_fixed d x.
+Proof.
+  intros W. unfold k_box, k_box_fixed. destruct (dmin d x) as [|dm] eqn:Ed; auto.
+  unfold blocks. f_equal. f_equal. f_equal.
+  destruct (Nat.eqb (prodn (skipn (S dm) (ash x))) 0) eqn:Z.
+  - rewrite skipn_length. pose proof (dmin_le d x) as Hl. rewrite Ed in Hl. do 2 f_equal. lia.
   - apply Nat.eqb_neq in Z. rewrite (wf_blocks_len (S dm) x W). apply Nat.div_mul; auto.
 Qed.
